@@ -102,7 +102,47 @@ def correspond(ctx):
     return merge(s_fmt, o_rt)
 
 
+def _uncps(t):
+    return "" if t == "-" else "".join(chr(int(x)) for x in t.split(","))
+
+
+def lossless_on_seeds(ctx, seeds):
+    """property-directed use of the disagreeing inputs: the property says parsing and re-rendering loses nothing.  For every input on
+    which model and implementation disagreed, ask both to re-render it: where the model returns the input unchanged (it is the canonical
+    rendering of well-formed settings — theorems R1/R2) and the REAL hasher returns a different string, the real code loses or alters
+    information: that input is the replay."""
+    cands = []
+    for sd in seeds:
+        if not isinstance(sd, str):
+            continue
+        parts = sd.split(" ")
+        if len(parts) == 4 and parts[0] == "fmt" and parts[1] in ("reparse", "parse"):
+            cands.append((parts[2], parts[3]))
+    seen = set()
+    for name, c in cands:
+        if (name, c) in seen:
+            continue
+        seen.add((name, c))
+        h = _uncps(c)
+        try:
+            model = ctx.model([f"fmt reparse {name} {c}"])[0]
+        except Exception:  # noqa: BLE001
+            continue
+        if model != "ok " + c:
+            continue            # not a canonical string according to the model
+        try:
+            real = fc.reparse(name, h)
+        except Exception as e:  # noqa: BLE001
+            return {"input": {"op": "reparse", "hasher": name, "hash": h}, "observed": errname(e) + ": " + str(e)[:100], "expected": "the canonical string is accepted and re-rendered unchanged"}
+        if real != c:
+            return {"input": {"op": "reparse", "hasher": name, "hash": h}, "observed": _uncps(real), "expected": h}
+    return None
+
+
 def search(ctx, broken, seeds):
+    hit = lossless_on_seeds(ctx, seeds)
+    if hit:
+        return hit
     r = correspond(ctx)
     for name, s in r["suites"].items():
         if name.startswith("oracle-") and s["mismatches"]:
@@ -113,6 +153,12 @@ def search(ctx, broken, seeds):
 
 def replay(ctx, inp):
     warnings.simplefilter("ignore")
+    if inp.get("op") == "reparse":
+        try:
+            real = _uncps(fc.reparse(inp["hasher"], inp["hash"]))
+            return {"fails": real != inp["hash"], "observed": real}
+        except Exception as e:  # noqa: BLE001
+            return {"fails": True, "observed": errname(e)}
     if inp.get("op") == "inspect-sha-implicit":
         from libpass.inspect.sha_crypt import SHA256CryptInfo, inspect_sha_crypt
 
